@@ -303,6 +303,7 @@ def run(prop, tier, seed, replay=None):
     tot = dict(scenarios=0, events=0, set_aside=0, hangs=0, tstates=0)
     suspects = {}
     extra = []
+    seen_keys = set()
 
     def absorb(tag, out, st, tv):
         tot["scenarios"] += st["segments"]
@@ -326,6 +327,9 @@ def run(prop, tier, seed, replay=None):
             text = CLAUSE_TEXT.get(first, "several clauses of the property at once")
             ev = json.loads(line) if line else {}
             key = "%s:%s" % ("announce" if first in ("args", "tok", "dst", "stopped") else "peers" if first in ("once", "right", "owed") else "finish", clause)
+            if key in seen_keys:
+                continue  # one replay per kind of violation
+            seen_keys.add(key)
             rp = vlib.save_replay(prop, "%s-%s-%s" % (key.replace(":", "-").replace("+", "-"), tag, sg),
                                   {"trace.ndjson": "\n".join(segl) + "\n", "scenario.json": scn or {}},
                                   dict(property=prop, key=key, kind="trace", clause=clause, scn=scn, line=line,
